@@ -151,7 +151,7 @@ func c16BraceExpand(text string, q *c16Quirks) []string {
 		}
 		if tack == nil {
 			var q2 c16Quirks
-			if inner := c16BraceExpand(amble, &q2); q2.giveUp || len(inner) != 1 || inner[0] != amble {
+			if inner := c16BraceExpand(amble, &q2); q2.giveUp || q2.opaque || len(inner) != 1 || inner[0] != amble {
 				q.opaque = true
 			}
 			if i+1 < len(text) {
